@@ -116,8 +116,10 @@ Section Decoders.
     | [family; src; scope] =>
         dom _ <- get_bytes wire ((src + 7) / 8);           (* int(math.ceil(src / 8.0)) *)
         if family =? 1 then
-          (* inet_ntoa needs 4 octets (SyntaxError); the constructor srclen, scopelen <= 32 (ValueError) *)
-          if (src <=? 32) && (scope <=? 32) then ret tt else raise (XInt iValueError)
+          (* dns.ipv4.inet_ntoa needs exactly 4 octets: more than 4 address octets (src > 32) is its
+             dns.exception.SyntaxError; then the constructor: scopelen <= 32 (ValueError) *)
+          if src >? 32 then raise (XLib eSyntax)
+          else if scope <=? 32 then ret tt else raise (XInt iValueError)
         else if family =? 2 then
           if (src <=? 128) && (scope <=? 128) then ret tt else raise (XInt iValueError)
         else raise (XInt iValueError)
@@ -457,6 +459,14 @@ Definition rdata_from_wire (wire : list Z) (rdparse : Z -> Z -> M unit)
   | Val s0 => restrict_to rdlen (rdata_from_wire_parser rdparse rdclass rdtype) s0
   end.
 
+(* dns.edns.option_from_wire(otype, wire, current, olen): the direct option API, NOT under
+   ExceptionWrapper (tests/test_edns.py pins ValueError for a malformed ECS option) *)
+Definition option_from_wire (wire : list Z) (otype current olen : Z) : out unit * pstate :=
+  match parser_init wire current with
+  | Exn x => (Exn x, mkP 0 (zlen wire) 0)
+  | Val s0 => restrict_to olen (dec_option wire otype) s0
+  end.
+
 (* ---------- dns.ttl.from_text ----------
    `dval c` = Some d iff c.isdecimal(), d = int(c).  The theorems hold for every classifier
    whose values are 0..9; `run` instantiates it with ASCII, Arabic-Indic and fullwidth digits. *)
@@ -636,6 +646,12 @@ Definition run (c : obs) : obs :=
   (* dns.rdata.from_wire for the modelled types *)
   | L [I 32; B wire; I rdclass; I rdtype; I current; I rdlen] =>
       match rdata_from_wire wire (dec_rdata wire None) rdclass rdtype current rdlen with
+      | (Val _, s) => N
+      | (Exn x, s) => obs_of_exn x
+      end
+  (* dns.edns.option_from_wire *)
+  | L [I 33; B wire; I otype; I current; I olen] =>
+      match option_from_wire wire otype current olen with
       | (Val _, s) => N
       | (Exn x, s) => obs_of_exn x
       end
